@@ -8,6 +8,7 @@ BUILD = os.path.join(ROOT, "build")
 COQ = os.path.join(ROOT, "coq")
 REPO = os.environ.get("VERIF_REPO", "/repo")
 ENV = dict(os.environ, CARGO_NET_OFFLINE="true")
+PROD_STATS = {"prod": 0, "hooked": 0}     # cases run on the production / on the hooked build of msql-srv
 
 
 def _big_stack():
@@ -95,18 +96,23 @@ def build_driver():
     return rc == 0, out
 
 
-def build_harness(release=False):
+def build_harness(release=False, prod=False):
+    """prod=True: the harness against the PRODUCTION build of msql-srv (cargo feature verif-hooks off)"""
     h = os.path.join(ROOT, "harness")
     lock = os.path.join(h, "Cargo.lock")
     if not os.path.exists(lock):
         sh(["cp", os.path.join(REPO, "Cargo.lock"), lock])
     cmd = "cargo build --offline" + (" --release" if release else "")
-    rc, out = sh(cmd, cwd=h, timeout=3000)
+    env = None
+    if prod:
+        cmd += " --no-default-features"
+        env = dict(ENV, CARGO_TARGET_DIR=os.path.join(BUILD, "harness-target-prod"))
+    rc, out = sh(cmd, cwd=h, timeout=3000, env=env)
     return rc == 0, out
 
 
-def harness_bin(release=False):
-    return os.path.join(BUILD, "harness-target", "release" if release else "debug", "harness")
+def harness_bin(release=False, prod=False):
+    return os.path.join(BUILD, "harness-target-prod" if prod else "harness-target", "release" if release else "debug", "harness")
 
 
 def driver_bin():
@@ -129,8 +135,12 @@ def ensure_built(release=False, log=None):
             res["driver"] = (False, "no extracted model")
         ok3, out3 = build_harness(False)
         res["harness"] = (ok3, out3[-3000:])
+        ok5, out5 = build_harness(False, prod=True)
+        res["harness_prod"] = (ok5, out5[-3000:])
         if release:
             ok4, out4 = build_harness(True)
             res["harness_release"] = (ok4, out4[-3000:])
+            ok6, out6 = build_harness(True, prod=True)
+            res["harness_prod_release"] = (ok6, out6[-3000:])
     res["build_s"] = time.time() - t0
     return res
